@@ -110,7 +110,9 @@ theorem dispCore_spec (r : Nat) (m1 : MoveObj) (s1 : State) (l : Int) (hl : m1.t
 theorem dispCall_eq (r : Nat) (s : State) :
     dispCall r s =
       match (s.obj r).toDisplace with
-      | some _ => dispCore r (s.obj r) s
+      | some l =>
+        if (uniqueLabels (s.obj r).labels).contains l then dispCore r (s.obj r) s
+        else (false, s.setObj r { (s.obj r) with toDisplace := none, displaced := none })
       | none =>
         if (uniqueLabels (s.obj r).labels).isEmpty then
           (false, s.setObj r { (s.obj r) with toDisplace := none, displaced := none })
@@ -119,7 +121,11 @@ theorem dispCall_eq (r : Nat) (s : State) :
             { s with inp := (choice (uniqueLabels (s.obj r).labels) 0 s.inp).2 } := by
   unfold dispCall dispCore
   cases h : (s.obj r).toDisplace with
-  | some l => simp only [h]
+  | some l =>
+    simp only [h]
+    by_cases hc : (uniqueLabels (s.obj r).labels).contains l = true
+    · simp only [hc, if_true, h]
+    · simp only [hc, Bool.false_eq_true, if_false]
   | none =>
     simp only [h]
     by_cases hu : (uniqueLabels (s.obj r).labels).isEmpty = true
@@ -132,10 +138,22 @@ theorem dispCall_spec (r : Nat) (s : State) (hr : r < s.heap.length) :
   cases htd : (s.obj r).toDisplace with
   | some l0 =>
     simp only []
-    obtain ⟨h1, h2, h3, h4, hk, hat, h5, h6, h7⟩ := dispCore_spec r (s.obj r) s l0 htd hr
-    exact ⟨h1, h2, h3, h4, hk, hat, h5, h6, fun h => by
-      obtain ⟨d, hd, hdis⟩ := h7 h
-      exact ⟨l0, d, hd, hdis, Or.inl htd⟩⟩
+    by_cases hc : (uniqueLabels (s.obj r).labels).contains l0 = true
+    · simp only [hc, if_true]
+      obtain ⟨h1, h2, h3, h4, hk, hat, h5, h6, h7⟩ := dispCore_spec r (s.obj r) s l0 htd hr
+      exact ⟨h1, h2, h3, h4, hk, hat, h5, h6, fun h => by
+        obtain ⟨d, hd, hdis⟩ := h7 h
+        exact ⟨l0, d, hd, hdis, Or.inl htd⟩⟩
+    · simp only [hc, Bool.false_eq_true, if_false]
+      refine ⟨by simp [State.setObj], ?_, ?_, ?_, ?_, ?_, ?_, ?_, ?_⟩
+      · intro r' hne; rw [heap_setObj_ne _ _ _ _ hne]
+      · rw [obj_setObj _ _ _ hr]
+      · rw [obj_setObj _ _ _ hr]
+      · rw [obj_setObj _ _ _ hr]
+      · rw [obj_setObj _ _ _ hr]
+      · simp [State.setObj]
+      · intro _; exact ⟨by simp [State.setObj], by rw [obj_setObj _ _ _ hr]⟩
+      · intro h; cases h
   | none =>
     simp only []
     by_cases hu : (uniqueLabels (s.obj r).labels).isEmpty = true
@@ -160,5 +178,21 @@ theorem dispCall_spec (r : Nat) (s : State) (hr : r < s.heap.length) :
       exact ⟨h1, h2, h3, h4, hk, hat, h5, h6, fun h => by
         obtain ⟨d, hd, hdis⟩ := h7 h
         exact ⟨_, d, hd, hdis, Or.inr ⟨htd, hmem⟩⟩⟩
+
+/-- whatever way the target was chosen (drawn by the move or pre-selected by the user), a successful call displaced
+    a label that is ELIGIBLE: one of the non-negative labels present -/
+theorem dispCall_ok_mem (r : Nat) (s : State) (hr : r < s.heap.length) (hok : (dispCall r s).1 = true) :
+    ∃ l, ((dispCall r s).2.obj r).displaced = some l ∧ l ∈ uniqueLabels (s.obj r).labels := by
+  have hsp := dispCall_spec r s hr
+  obtain ⟨l, d, _, hdis, hsel⟩ := hsp.ok_atoms hok
+  refine ⟨l, hdis, ?_⟩
+  rcases hsel with hp | ⟨_, hmem⟩
+  · -- pre-selected: the call only goes ahead when the label is eligible
+    rw [dispCall_eq, hp] at hok
+    simp only [] at hok
+    by_cases hc : (uniqueLabels (s.obj r).labels).contains l = true
+    · simpa using hc
+    · simp only [hc, Bool.false_eq_true, if_false] at hok
+  · exact hmem
 
 end MM
